@@ -98,7 +98,8 @@ From RU Require Import Base.Prelude Base.Utf8 Model.AsciiSet Gen.Tables Model.Pe
   Proofs.C02_AuthParts Proofs.C03_ReachParts Proofs.C01_EqRef Proofs.C07_EqRel Proofs.C07_SpecInv Proofs.C07_ParseExtra Proofs.C07_EqParseAll
   Proofs.C07_SpecHost2 Proofs.C07_EqHostNoPort Proofs.C07_SpecHostPort Proofs.C07_EqHostPort Proofs.C07_EqNine
   Proofs.C06_Host Proofs.C09_Host Proofs.C16_RT6Model Proofs.C07_HostReal
-  Proofs.C07_SpecPath Proofs.C07_PathText Proofs.C07_PathKnown Proofs.C07_PathMarker Proofs.C07_EqPathname Proofs.C07_EqTen.
+  Proofs.C07_SpecPath Proofs.C07_PathText Proofs.C07_PathKnown Proofs.C07_PathMarker Proofs.C07_EqPathname Proofs.C07_EqTen
+  Proofs.C03_ReachParts Proofs.C09_Long Proofs.C09_RealC01 Proofs.C07_SpecInvU Proofs.C07_HostOn Proofs.C07_AllOn Proofs.C07_RealOut.
 
 (* ---------- the statement ---------- *)
 
@@ -1500,6 +1501,138 @@ Theorem C07_host_fns_special_empty_string : forall idna, idna [] = Some [97] ->
   ~ host_fn_ok (host_parse idna) host_display (spec_host_parser idna) spec_host_serializer false.
 Proof. exact host_fn_ok_special_empty_string. Qed.
 Print Assumptions C07_host_fns_special_empty_string.
+
+(* ---------- the statement relative to the oracle's first clause only ---------- *)
+
+(* the host hypothesis restricted to the strings that are ever handed to the host functions: agreement on scalar-value
+   strings, non-empty for Host::parse (host_fns_ok_on); with HostWf and the empty host's empty text: host_parse_ok_on.
+   host_parse_ok implies it. *)
+Theorem C07_host_parse_ok_on_of_all : forall hp ho hd shp shs,
+  host_parse_ok hp ho hd shp shs -> host_parse_ok_on hp ho hd shp shs.
+Proof. exact host_parse_ok_on_of_all. Qed.
+Check C07_host_parse_ok_on_of_all : forall hp ho hd shp shs,
+  host_parse_ok hp ho hd shp shs ->
+  ((forall s, usv_list s -> s <> [] -> host_fn_ok_at hp hd shp shs false s)
+   /\ (forall s, usv_list s -> host_fn_ok_at ho hd shp shs true s))
+  /\ HostWf hp ho hd /\ shs SEmpty = [].
+Print Assumptions C07_host_parse_ok_on_of_all.
+
+(* hostname and host under the restricted hypothesis: one assignment queries the host functions on ONE string, the
+   buffer of the host scan of the value - a sub-string of the value, never empty for Host::parse; replacing the host
+   functions by wrappers that answer like them on that buffer and fail elsewhere (they satisfy host_fns_ok) is seen by
+   neither side *)
+Theorem C07_hostname_host_equiv_on : forall dbg hp ho hd shp shs, host_fns_ok_on hp ho hd shp shs ->
+  forall u su s v, corrS dbg shs u su -> (s = QHostname \/ s = QHost) -> usv_list v -> known_c07 u s v = 0 ->
+  exists u' su', model_set dbg hp ho hd s u v = Some u' /\ spec_step shp s su v = Some su' /\ corrS dbg shs u' su'.
+Proof.
+  intros dbg hp ho hd shp shs HO u su s v C [-> | ->] Hv Hk;
+    [exact (hostname_step_on dbg hp ho hd shp shs HO u su v C Hv Hk) | exact (host_step_on dbg hp ho hd shp shs HO u su v C Hv Hk)].
+Qed.
+Print Assumptions C07_hostname_host_equiv_on.
+
+(* C07_statement's three clauses under host_parse_ok_on, all ten setters (all_ok s v: any value for the nine setters
+   other than href; for href a value that fits u32 and whose scheme is not "file").  The parse clause: C01's host
+   hypothesis is needed on one sub-string of the input; the text of the Standard's host is non-empty because the host is
+   a host-parser result on a scalar-value buffer, non-empty when not opaque (Proofs/C07_SpecInvU.v) *)
+Theorem C07_statement_on : forall dbg hp ho hd shp shs, host_parse_ok_on hp ho hd shp shs ->
+  exists R : url -> spec_url -> Prop,
+    (forall u su, R u su -> model_api dbg u = Some (spec_api_list shs su))
+    /\ (forall input u, usv_list input -> known_c01 None input = 0 -> input_is_file input = false ->
+          parse_url dbg hp ho hd None None input = POk u ->
+          exists su, spec_basic_url_parse shp input None = BDone su /\ R u su)
+    /\ (forall u su s v, R u su -> all_ok shp shs s v -> usv_list v -> known_c07 u s v = 0 ->
+          exists u' su', model_set dbg hp ho hd s u v = Some u' /\ spec_step shp s su v = Some su' /\ R u' su').
+Proof. exact statement_all_on. Qed.
+Check C07_statement_on : forall dbg hp ho hd shp shs, host_parse_ok_on hp ho hd shp shs ->
+  exists R : url -> spec_url -> Prop,
+    (forall u su, R u su -> model_api dbg u = Some (spec_api_list shs su))
+    /\ (forall input u, usv_list input -> known_c01 None input = 0 -> input_is_file input = false ->
+          parse_url dbg hp ho hd None None input = POk u ->
+          exists su, spec_basic_url_parse shp input None = BDone su /\ R u su)
+    /\ (forall u su s v, R u su -> (s <> QHref \/ (href_fits shp shs v /\ input_is_file v = false)) -> usv_list v ->
+          known_c07 u s v = 0 ->
+          exists u' su', model_set dbg hp ho hd s u v = Some u' /\ spec_step shp s su v = Some su' /\ R u' su').
+Print Assumptions C07_statement_on.
+
+(* the REAL host functions - Host::parse with a domain-to-ASCII oracle, Host::parse_opaque, Display against the
+   Standard's host parser over the same oracle and the Standard's host serializer - satisfy host_parse_ok_on as soon as
+   every output of the oracle is ASCII outside the deny list (IdnaOut: the first clause of IdnaOK and of IdnaOK2; no
+   idempotence) *)
+Theorem C07_real_host_parse_ok_on : forall idna, IdnaOut idna ->
+  host_parse_ok_on (host_parse idna) host_parse_opaque host_display (spec_host_parser idna) spec_host_serializer.
+Proof. exact real_host_parse_ok_on_out. Qed.
+Check C07_real_host_parse_ok_on : forall idna,
+  (forall bs d, idna bs = Some d -> Forall dom_char_ok d) ->
+  host_parse_ok_on (host_parse idna) host_parse_opaque host_display (spec_host_parser idna) spec_host_serializer.
+Print Assumptions C07_real_host_parse_ok_on.
+
+(* PARTIAL C07_statement for the linked model (parser + setters + host model of Model/Host.v) against the Standard's
+   parser and setters with the Standard's host parser (Spec/WhatwgHostParse.v) over the same oracle, relative to IdnaOut
+   only.  Against C07_statement: hosts_agree is replaced by the concrete host functions; still missing: file inputs /
+   file href values (host / hostname / pathname on file URLs: class 4), href values beyond u32::MAX bytes; inputs and
+   values are scalar-value strings *)
+Theorem C07_statement_model : forall dbg idna, IdnaOut idna ->
+  exists R : url -> spec_url -> Prop,
+    (forall u su, R u su -> model_api dbg u = Some (spec_api_list spec_host_serializer su))
+    /\ (forall input u, usv_list input -> known_c01 None input = 0 -> input_is_file input = false ->
+          parse_url dbg (host_parse idna) host_parse_opaque host_display None None input = POk u ->
+          exists su, spec_basic_url_parse (spec_host_parser idna) input None = BDone su /\ R u su)
+    /\ (forall u su s v, R u su -> all_ok (spec_host_parser idna) spec_host_serializer s v -> usv_list v ->
+          known_c07 u s v = 0 ->
+          exists u' su', model_set dbg (host_parse idna) host_parse_opaque host_display s u v = Some u'
+            /\ spec_step (spec_host_parser idna) s su v = Some su' /\ R u' su').
+Proof. exact statement_model_out. Qed.
+Check C07_statement_model : forall dbg idna, (forall bs d, idna bs = Some d -> Forall dom_char_ok d) ->
+  exists R : url -> spec_url -> Prop,
+    (forall u su, R u su -> model_api dbg u = Some (spec_api_list spec_host_serializer su))
+    /\ (forall input u, usv_list input -> known_c01 None input = 0 -> input_is_file input = false ->
+          parse_url dbg (host_parse idna) host_parse_opaque host_display None None input = POk u ->
+          exists su, spec_basic_url_parse (spec_host_parser idna) input None = BDone su /\ R u su)
+    /\ (forall u su s v, R u su ->
+          (s <> QHref \/ (href_fits (spec_host_parser idna) spec_host_serializer v /\ input_is_file v = false)) ->
+          usv_list v -> known_c07 u s v = 0 ->
+          exists u' su', model_set dbg (host_parse idna) host_parse_opaque host_display s u v = Some u'
+            /\ spec_step (spec_host_parser idna) s su v = Some su' /\ R u' su').
+Print Assumptions C07_statement_model.
+
+(* ... and its histories: parse, then any history of the ten setters, each step outside Known_C07 *)
+Theorem C07_model_histories : forall dbg idna, IdnaOut idna ->
+  forall input u ops, usv_list input -> known_c01 None input = 0 -> input_is_file input = false ->
+  parse_url dbg (host_parse idna) host_parse_opaque host_display None None input = POk u ->
+  all_ops (spec_host_parser idna) spec_host_serializer ops ->
+  outside_known dbg (host_parse idna) host_parse_opaque host_display u ops ->
+  exists su, spec_basic_url_parse (spec_host_parser idna) input None = BDone su
+    /\ model_api dbg u = Some (spec_api_list spec_host_serializer su)
+    /\ forall n, exists u' su',
+         model_run dbg (host_parse idna) host_parse_opaque host_display u (firstn n ops) = Some u'
+         /\ spec_run (spec_host_parser idna) su (firstn n ops) = Some su'
+         /\ model_api dbg u' = Some (spec_api_list spec_host_serializer su').
+Proof. exact model_histories_out. Qed.
+Check C07_model_histories : forall dbg idna, IdnaOut idna ->
+  forall input u ops, usv_list input -> known_c01 None input = 0 -> input_is_file input = false ->
+  parse_url dbg (host_parse idna) host_parse_opaque host_display None None input = POk u ->
+  all_ops (spec_host_parser idna) spec_host_serializer ops ->
+  outside_known dbg (host_parse idna) host_parse_opaque host_display u ops ->
+  exists su, spec_basic_url_parse (spec_host_parser idna) input None = BDone su
+    /\ model_api dbg u = Some (spec_api_list spec_host_serializer su)
+    /\ forall n, exists u' su',
+         model_run dbg (host_parse idna) host_parse_opaque host_display u (firstn n ops) = Some u'
+         /\ spec_run (spec_host_parser idna) su (firstn n ops) = Some su'
+         /\ model_api dbg u' = Some (spec_api_list spec_host_serializer su').
+Print Assumptions C07_model_histories.
+
+(* the premise holds of an oracle that satisfies IdnaOK2 (the real idna crate up to Known_C10) or IdnaOK; it is met by
+   the oracle idna_clean, with which the model computes: "http://ExAmple.com/p" .hostname = "x.Y", .pathname = "a/../b" *)
+Example C07_statement_model_inhabited :
+  (forall idna, IdnaOK2 idna -> IdnaOut idna) /\ (forall idna, IdnaOK idna -> IdnaOut idna) /\ IdnaOut idna_clean
+  /\ exists u, parse_url true (host_parse idna_clean) host_parse_opaque host_display None None (str "http://example.com/p") = POk u
+       /\ outside_known true (host_parse idna_clean) host_parse_opaque host_display u [(QHostname, str "x.y"); (QPathname, str "a/../b")]
+       /\ option_map q_href (model_run true (host_parse idna_clean) host_parse_opaque host_display u
+                               [(QHostname, str "x.y"); (QPathname, str "a/../b")]) = Some (str "http://x.y/b").
+Proof.
+  split; [exact IdnaOK2_out|]. split; [exact IdnaOK_out|]. split; [exact (IdnaOK_out idna_clean idna_clean_ok)|].
+  eexists. split; [vm_compute; reflexivity|]. split; [vm_compute; repeat split | vm_compute; reflexivity].
+Qed.
 
 (* ---------- clauses of the Standard's setters, for all records and values ---------- *)
 
